@@ -345,9 +345,39 @@ def r_consteval(sh, rep):
                 how = parent["m"]
             elif parent is not None and parent["m"] in ("unwrap_or_else", "map_err", "or_else") and any(x.get("k") == "Macro" and last(x.get("path", "")) in ("panic", "unreachable", "todo") for x in walk(parent)):
                 how = parent["m"] + "(.. panic!)"
-            guard = next((a for a in reversed(anc) if a.get("k") == "If" and ("extract_constant(" in sh.nsrc(GEN, a["cond"]) or ".arguments.is_empty()" in sh.nsrc(GEN, a["cond"]))), None)  # second form: a constructor without arguments — constrData of a literal index and the empty list
+            def cond_src(a):
+                c = a["cond"]
+                if c.get("k") == "Path":  # a flag computed earlier: read its definition
+                    d = next((st for st in walk(f["body"]) if st.get("k") == "Local" and st["pat"].get("k") == "Ident" and st["pat"]["name"] == c["p"] and st.get("init") is not None), None)
+                    if d is not None:
+                        return sh.nsrc(GEN, d["init"]), d["s"][0]
+                return sh.nsrc(GEN, c), c["s"][0]
+
+            guard = None
+            for a in reversed(anc):
+                if a.get("k") == "If":
+                    cs, cl = cond_src(a)
+                    if "extract_constant(" in cs or ".arguments.is_empty()" in cs:  # second form: a constructor without arguments — constrData of a literal index and the empty list
+                        guard = (a, cs, cl)
+                        break
             if how is not None and guard is not None:
-                rep.ok("R10-CONSTEVAL", "%s#eval-result#%d" % (q.split("::")[-1], k), sh.loc(GEN, node), why="under `%s`: what is evaluated is a constant, alone or under a conversion towards Data (iData, bData, listData, mapData, constrData — total); for the conversion from Data the test is made on the very term that is evaluated" % sh.nsrc(GEN, guard["cond"])[:70], sample={"consumed_by": how})
+                ga, cs, cl = guard
+                # what is evaluated is what the guard looked at: between the test and the evaluation the term may only pass through
+                # a conversion *towards* Data (total); a conversion from Data, applied after the test, can fail on the constant
+                np_ = next((c for c in walk(ga["then"]) if c.get("k") == "MethodCall" and c["m"] == "new_program" and c["args"] and c["s"][0] <= node["s"][0]), None)
+                var = sh.nsrc(GEN, np_["args"][0]) if np_ is not None else None
+                late = []
+                if var and re.fullmatch(r"\w+", var):
+                    for asg in walk(f["body"]):
+                        if asg.get("k") == "Assign" and sh.nsrc(GEN, asg["l"]) == var and cl < asg["s"][0] <= np_["s"][0]:
+                            callee = [last(call_name(c) or "") for c in walk(asg["r"]) if c.get("k") == "Call"]
+                            # the conversions *from* Data are the partial ones (known_/unknown_/softcast_data_to_type: un*Data underneath)
+                            if any("data_to_type" in cn or cn.startswith("un_") for cn in callee):
+                                late.append(asg)
+                if late:
+                    rep.bad("R10-CONSTEVAL", "%s#eval-result#%d" % (q.split("::")[-1], k), sh.loc(GEN, late[0]), "%s tests that `%s` is a constant, then rewrites it with `%s` and evaluates the result with `%s`: the conversion applied after the test can fail on the constant (`expect x: Int = d` for a constant d of another shape), and the failure panics the compiler" % (q, var, sh.nsrc(GEN, late[0]["r"])[:60], how), sample={"consumed_by": how})
+                    continue
+                rep.ok("R10-CONSTEVAL", "%s#eval-result#%d" % (q.split("::")[-1], k), sh.loc(GEN, node), why="under `%s`: what is evaluated is a constant, alone or under a conversion towards Data (iData, bData, listData, mapData, constrData — total); for the conversion from Data the test is made on the very term that is evaluated" % cs[:70], sample={"consumed_by": how})
                 continue
             what = "module-constant" if "ModuleConstant" in sh.nsrc(GEN, next((a for a in reversed(anc) if a.get("k") == "Arm"), f["body"]))[:4000] and k == 1 else "site%d" % k
             rep.check(how is None, "R10-CONSTEVAL", "%s#eval-result#%d" % (q.split("::")[-1], k), sh.loc(GEN, node), "%s evaluates part of the user's program while compiling and consumes the result with `%s`: an evaluation that fails — `const r: Int = 1 / zero`, `builtin.head_list([])` in a constant — panics the compiler instead of being reported" % (q, how), sample={"consumed_by": how})
